@@ -349,6 +349,16 @@ def check_case(res, st, from_parts, key):
             res.violation("html-malformed", "HTML is not well-formed: %s; open at end: %r" % (p.errors[:3], p.stack[-3:]), case,
                           observed=out[:600])
             return
+        # strict re-parse as XML (expat): catches what the lenient HTML parser forgives, e.g. an unescaped quote
+        # character of a key inside a double-quoted attribute value
+        try:
+            import xml.etree.ElementTree as ET
+            ET.fromstring("<root>" + out + "</root>")
+        except ET.ParseError as e:
+            pos = getattr(e, "position", (1, 0))[1] - 6
+            res.violation("html-not-wellformed-xml", "the HTML does not survive a strict parse: %s" % (e,), case,
+                          observed=out[max(0, pos - 100): pos + 60])
+            return
         for m in RAW_MARKERS:
             if m in out:
                 res.violation("html-unescaped", "schema text %r appears unescaped in the HTML" % (m,), case,
